@@ -96,8 +96,28 @@ WhyStages(c) ==
        THEN "a-stage-dropped-or-altered-a-booking"
   ELSE "ok"
 
+\* ---- kind "stagesExact": the same hook events in the exact valued regime, compared with what the
+\* model's stage operators produce for that day: after the valuation stage (c.sValuate) the day's
+\* transactions are the model's valued transactions (user bookings at the booking-day price plus the
+\* value adjustments); after the last stage before the query (c.sFinal) they are the model's final ones
+\* (window filter and closing entries applied).  ev = [stage, z, trx : Seq(Seq([a, c, q, v]))]
+BagOf(sq) == [x \in {sq[n] : n \in 1..Len(sq)} |-> Cardinality({n \in 1..Len(sq) : sq[n] = x})]
+TrxBag(trxs, f(_)) == BagOf([m \in 1..Len(trxs) |-> BagOf([n \in 1..Len(trxs[m]) |-> f(trxs[m][n])])])
+Proj(p) == [a |-> p.a, c |-> p.c, q |-> p.q, v |-> p.v]
+WhyStagesExact(c) ==
+  LET fin == Run(c)
+      day(z) == CHOOSE d \in 1..Len(fin.trace) : fin.trace[d].z = z
+  IN IF Failed(fin) THEN "ok"
+     ELSE IF \E n \in 1..Len(c.events) : ~\E d \in 1..Len(fin.trace) : fin.trace[d].z = c.events[n].z THEN "stage-processed-a-day-the-model-does-not-have"
+     ELSE IF \E n \in 1..Len(c.events) : c.events[n].stage = c.sValuate
+               /\ TrxBag(c.events[n].trx, Proj) # TrxBag(fin.trace[day(c.events[n].z)].valued, Proj) THEN "valuation-stage-output-differs-from-model"
+     ELSE IF \E n \in 1..Len(c.events) : c.events[n].stage = c.sFinal
+               /\ TrxBag(c.events[n].trx, Proj) # TrxBag(fin.trace[day(c.events[n].z)].final, Proj) THEN "final-stage-output-differs-from-model"
+     ELSE "ok"
+
 Why(c) ==
   CASE c.kind = "check" -> WhyCheck(c)
+    [] c.kind = "stagesExact" -> WhyStagesExact(c)
     [] c.kind = "stages" -> WhyStages(c)
     [] c.kind = "delta" -> WhyDelta(c)
     [] c.kind = "balance" -> WhyBalance(c)
